@@ -1,6 +1,9 @@
 // Generators for graph-shaped cases (C09-C12, C14, C19) and files (C13-C15).
 #include "gens.hpp"
+#include "textref.hpp"
+#include <algorithm>
 #include <cstdio>
+#include <set>
 
 using namespace rc;
 
@@ -102,6 +105,82 @@ Gen<Case> makeFamilyGen(const Cfg &cfg) {
     });
 }
 
+// ---------------------------------------------------------------- C13: well-formed text files from the documented grammar
+// cfg: classes="DS:none;DL:string;...", modes="indexfile;namefile"
+Gen<Case> makeTextFileGen(const Cfg &cfg) {
+    std::vector<std::string> classes = splitList(cfgGet(cfg, "classes", "DS:none;DL:string"), ';');
+    std::vector<std::string> modes = splitList(cfgGet(cfg, "modes", "indexfile;namefile"), ';');
+    return gen::exec([=]() {
+        std::string cl = *gen::resize(kNominalSize, gen::elementOf(classes));
+        auto parts = splitList(cl, ':');
+        std::string label = parts.size() > 1 ? parts[1] : "none";
+        std::string mode = *gen::resize(kNominalSize, gen::elementOf(modes));
+        bool directed = parts[0][0] == 'D';
+        static const char *pool[] = {"a", "b", "A", "node1", "#x", "7", "007", "x#y", "\xc3\xa9", "a.b", "-", "__", "v12", "B", "0", "zz"};
+        int N = mode == "namefile" ? *uni(1, 17) : *uni(1, 16);
+        auto ws = [&](int lo, int hi) {
+            std::string w;
+            int k = *uni(lo, hi + 1);
+            for (int i = 0; i < k; ++i)
+                w += *uni(0, 3) == 0 ? '\t' : ' ';
+            return w;
+        };
+        auto anyText = [&](int maxLen, bool firstNonBlank) {
+            static const char alpha[] = "ab z#\t 01,;|xY";
+            std::string t;
+            int k = *uni(firstNonBlank ? 1 : 0, maxLen + 1);
+            for (int i = 0; i < k; ++i) {
+                char ch = alpha[*uni(0, (int)sizeof(alpha) - 1)];
+                if (i == 0 && firstNonBlank && (ch == ' ' || ch == '\t'))
+                    ch = 'q';
+                t += ch;
+            }
+            return t;
+        };
+        std::vector<int> raw = *gen::scale(0.25, gen::container<std::vector<int>>(uni(0, N * N)));
+        std::set<std::pair<int, int>> seen;
+        std::string text;
+        if (*uni(0, 3) == 0)
+            text += "# Vertex1 Vertex2 Label\n";
+        for (int p : raw) {
+            int a = p / N, b = p % N;
+            std::pair<int, int> key = (!directed && a > b) ? std::make_pair(b, a) : std::make_pair(a, b);
+            if (!seen.insert(key).second)
+                continue;
+            if (*uni(0, 4) == 0)
+                text += "#" + anyText(10, false) + "\n";
+            std::string ta = mode == "namefile" ? pool[a % 16] : std::to_string(a);
+            std::string tb = mode == "namefile" ? pool[b % 16] : std::to_string(b);
+            std::string lead = *uni(0, 3) == 0 ? ws(1, 3) : "";
+            if (ta[0] == '#' && lead.empty())
+                lead = " "; // a name may start with '#' only if the line does not
+            std::string line = lead + ta + ws(1, 3) + tb;
+            int tail = *uni(0, 4);
+            if (label == "int") {
+                line += ws(1, 2) + std::to_string(*uni(0, 1000));
+            } else if (label == "string" || (label == "none" && tail == 3)) {
+                if (tail >= 1)
+                    line += ws(1, 3) + anyText(8, true);
+                else if (*uni(0, 2))
+                    line += ws(1, 2);
+            } else if (tail == 1)
+                line += ws(1, 2);
+            text += line + "\n";
+        }
+        if (*uni(0, 5) == 0)
+            text += "#" + anyText(6, false) + "\n";
+        if (!text.empty() && *uni(0, 5) == 0)
+            text.pop_back(); // last line without '\n'
+        Case c;
+        c.set("prop", "C13");
+        c.set("class", parts[0]);
+        c.set("label", label);
+        c.set("mode", mode);
+        c.set("file", hexEncode(text));
+        return c;
+    });
+}
+
 rc::Gen<Case> makeFileGen(const std::string &name, const Cfg &cfg, bool &found);
 
 rc::Gen<Case> makeExtraGen(const std::string &name, const Cfg &cfg, bool &found) {
@@ -110,6 +189,8 @@ rc::Gen<Case> makeExtraGen(const std::string &name, const Cfg &cfg, bool &found)
         return makeGraphGen(cfg);
     if (name == "family")
         return makeFamilyGen(cfg);
+    if (name == "textfile")
+        return makeTextFileGen(cfg);
     found = false;
     return rc::gen::just(Case());
 }
